@@ -204,6 +204,26 @@ def run(ctx):
         if impl.ops_of(lst[list(ib)]) != [lst_ops[k] for k in ib]:
             ctx.fail('PauliList.__getitem__', 'index list (negative indices allowed)', dict(ops=lst_ops, idx=ib))
         ctx.case(('getitem-forms', tuple(lst_ops), tuple(msk), tuple(ia), tuple(ib)), True)
+        # integer indices of every numpy integer type select ONE operator (a Pauli, not a list), negative ones included
+        for it_ in (np.int8, np.int16, np.int32, np.int64, np.intc, np.intp, np.uint8, np.uint16, np.uint32, np.uint64):
+            k_ = rng.randrange(L) if 'uint' in it_.__name__ else rng.randrange(-L, L)
+            try:
+                one_ = lst[it_(k_)]
+                ok_ = type(one_).__name__ == 'Pauli' and impl.ops_of(one_) == lst_ops[k_] and one_.N == n
+            except Exception as e:
+                ok_ = False; one_ = e
+            if not ok_:
+                ctx.fail('PauliList.__getitem__', 'index %d given as %s does not select that single operator (got %s)' % (k_, it_.__name__, str(one_)[:80]), dict(ops=lst_ops, index=k_, type=it_.__name__)); break
+        # sub-lists without elements keep N, have length 0 and an empty weight vector; their negation and multiples too
+        for nm_, emp in (('empty slice', lambda: lst[L:]), ('all-False mask', lambda: lst[np.zeros(L, dtype=bool)]), ('empty index array', lambda: lst[np.array([], dtype=np.int_)]),
+                         ('negated empty slice', lambda: -lst[0:0]), ('i times empty slice', lambda: 1j * lst[0:0])):
+            try:
+                e_ = emp()
+                ok_ = len(e_) == 0 and e_.N == n and list(e_.weight()) == [] and np.asarray(e_.weight()).shape == (0,)
+            except Exception as ex:
+                ok_ = False; e_ = ex
+            if not ok_:
+                ctx.fail('PauliList', 'a sub-list without elements (%s) does not behave as an empty list on %d qubits: %s' % (nm_, n, str(e_)[:100]), dict(ops=lst_ops, how=nm_)); break
         for k, c in enumerate([1, 1j, -1, -1j]):
             if impl.ops_of(c * lst) != [O.oscale(o, k) for o in lst_ops]:
                 ctx.fail('PauliList.__rmul__', 'multiplication by %s' % c, dict(ops=lst_ops))
